@@ -386,6 +386,105 @@ static void s_enum(seqx::Runner &R, bool thorough) {
     }
 }
 
+
+// ------------------------------------------------------------------------------------------------ part H
+// heap shapes: k sleeps with distinct deadlines scheduled in every order, one of them cancelled, then time is stepped
+// through every deadline; after each step the reported next deadline and the completed sleeps must follow the model
+static char h_ids[8];
+static void run_heap(seqx::Runner &R, const std::vector<int> &order, int cancel_idx) {
+    std::ostringstream d;
+    d << "heap;order=";
+    for (size_t i = 0; i < order.size(); i++) d << (i ? "," : "") << order[i];
+    d << ";cancel=" << cancel_idx;
+    R.begin(d.str());
+    int64_t base = seqx::live_allocs();
+    {
+        auto sch = std::make_unique<cocls::scheduler>();
+        size_t k = order.size();
+        std::vector<std::unique_ptr<cocls::future<void>>> futs;
+        std::vector<int> state(k, 0);  // 0 pending 1 expired 2 cancelled
+        for (size_t i = 0; i < k; i++) futs.emplace_back(new cocls::future<void>(sch->sleep_until(at(order[i]), &h_ids[i])));
+        R.step(k);
+        bool ok = true;
+        if (cancel_idx >= 0) {
+            bool r = sch->cancel(&h_ids[cancel_idx]);
+            if (!r) {
+                R.fail("sched/cancel-false-with-pending-target", "cancel of pending sleep #%d (deadline %d) returned false", cancel_idx, order[(size_t)cancel_idx]);
+                ok = false;
+            }
+            state[(size_t)cancel_idx] = 2;
+            if (ok && fut_state(*futs[(size_t)cancel_idx]) != 2) {
+                R.fail("sched/none-completed", "cancelled sleep did not complete with await_canceled_exception");
+                ok = false;
+            }
+        }
+        int maxd = 0;
+        for (int x : order) maxd = std::max(maxd, x);
+        for (int now = 0; now <= maxd && ok; now++) {
+            // drain everything due at 'now'
+            for (;;) {
+                int mintp = INT32_MAX;
+                for (size_t i = 0; i < k; i++)
+                    if (state[i] == 0 && order[i] < mintp) mintp = order[i];
+                cocls::scheduler::expired e = sch->get_expired(at(now));
+                R.step();
+                if (std::holds_alternative<cocls::scheduler::promise>(e)) {
+                    std::get<cocls::scheduler::promise>(e)();
+                    if (mintp > now) {
+                        R.fail("sched/expired-early", "at time %d a sleep was handed out although the earliest pending deadline is %d", now, mintp);
+                        ok = false;
+                        break;
+                    }
+                    int changed = -1, n = 0;
+                    for (size_t i = 0; i < k; i++)
+                        if (state[i] == 0 && fut_state(*futs[i]) == 1) {
+                            changed = (int)i;
+                            n++;
+                        }
+                    if (n != 1 || order[(size_t)changed] != mintp) {
+                        R.fail("sched/deadline-order", "at time %d the scheduler completed the sleep with deadline %d, the earliest pending deadline is %d", now,
+                               changed >= 0 ? order[(size_t)changed] : -1, mintp);
+                        ok = false;
+                        break;
+                    }
+                    state[(size_t)changed] = 1;
+                    continue;
+                }
+                tp_t t = std::get<tp_t>(e);
+                if (mintp <= now) {
+                    R.fail("sched/expired-not-reported", "at time %d a sleep with deadline %d is due but get_expired returned a time point", now, mintp);
+                    ok = false;
+                } else {
+                    tp_t expect = mintp == INT32_MAX ? tp_t::max() : at(mintp);
+                    if (t != expect) {
+                        R.fail("sched/next-deadline", "at time %d the nearest pending deadline is %d, but the scheduler reports %ld", now, mintp == INT32_MAX ? -1 : mintp,
+                               t == tp_t::max() ? -1L : ms_of(t));
+                        ok = false;
+                    }
+                }
+                break;
+            }
+        }
+        sch.reset();
+        for (auto &f : futs)
+            if (!f->ready()) (void)f.release();
+        R.state(seqx::hash_str(d.str()));
+        R.outcome((uint64_t)cancel_idx + 1);
+    }
+    if (!R.case_fail && seqx::live_allocs() != base) R.fail("sched/allocation-balance", "%ld allocations not released", (long)(seqx::live_allocs() - base));
+    R.end(true);
+}
+static void h_enum(seqx::Runner &R, int k) {
+    std::vector<int> order;
+    for (int i = 1; i <= k; i++) order.push_back(i * 2);
+    do {
+        for (int c = -1; c < k; c++) {
+            if (R.stop()) return;
+            if (R.next_case()) run_heap(R, order, c);
+        }
+    } while (std::next_permutation(order.begin(), order.end()));
+}
+
 }  // namespace
 
 void seqx_run(seqx::Runner &R, const std::string &tier) {
@@ -398,11 +497,20 @@ void seqx_run(seqx::Runner &R, const std::string &tier) {
     static const int sub[] = {0, 1, 4, 5, 8, 9, 11, 12, 13};
     m_dfs(R, q ? 6 : 8, seq, 0, sub, 9);
     s_enum(R, !q);
+    h_enum(R, 5);
+    h_enum(R, 6);
+    if (!q) h_enum(R, 7);
 }
 
 void seqx_replay(seqx::Runner &R, const std::string &c) {
     R.next_case();
-    if (c.rfind("manual;", 0) == 0) {
+    if (c.rfind("heap;", 0) == 0) {
+        std::vector<int> order;
+        std::stringstream ss(c.substr(c.find("order=") + 6, c.find(";cancel=") - c.find("order=") - 6));
+        std::string tok;
+        while (std::getline(ss, tok, ',')) order.push_back(atoi(tok.c_str()));
+        run_heap(R, order, atoi(c.c_str() + c.find("cancel=") + 7));
+    } else if (c.rfind("manual;", 0) == 0) {
         std::vector<int> seq;
         std::stringstream ss(c.substr(c.find("ops=") + 4));
         std::string tok;
